@@ -26,7 +26,9 @@ fn arg(args: &[String], key: &str) -> Option<String> {
 }
 
 fn main() {
-  std::panic::set_hook(Box::new(|_| {}));
+  if std::env::var("VERIF_PANIC").is_err() {
+    std::panic::set_hook(Box::new(|_| {}));
+  }
   let args: Vec<String> = std::env::args().collect();
   if args.len() < 3 {
     eprintln!("usage: engine_s check|replay|list ...");
